@@ -123,6 +123,29 @@ func (c *pathCtx) path(v ssa.Value) string {
 	case *ssa.UnOp:
 		switch x.Op {
 		case token.MUL:
+			// a load from a multiply-assigned local cell: the nearest preceding store in the same block is the value
+			if a, ok := x.X.(*ssa.Alloc); ok && singleStore(a) == nil && x.Block() != nil {
+				var last ssa.Value
+				for _, in := range x.Block().Instrs {
+					if in == ssa.Instruction(x) {
+						break
+					}
+					if st, ok := in.(*ssa.Store); ok && st.Addr == a {
+						last = st.Val
+					}
+					// a call that receives the cell's address may overwrite it
+					if cc := callCommon(in); cc != nil {
+						for _, arg := range cc.Args {
+							if arg == ssa.Value(a) {
+								last = nil
+							}
+						}
+					}
+				}
+				if last != nil {
+					return c.path(last)
+				}
+			}
 			in := c.path(x.X)
 			if strings.HasPrefix(in, "&(") && strings.HasSuffix(in, ")") && balanced(in[2:len(in)-1]) {
 				return in[2 : len(in)-1]
